@@ -67,7 +67,13 @@ pub fn exercise(s: &str, recs: &[Rec]) -> Result<Vec<(String, bool)>, Failure> {
         return Ok(outs);
     }
     for rec in recs {
-        match catch(|| encode_limited(&enc, rec, vec![], Some(1 << 20))) {
+        // the sink takes everything at once, one byte per call, or a mix with interruptions (a function of the pattern)
+        let script: Vec<u8> = match fnv64(s.as_bytes()) % 4 {
+            0 | 1 => vec![],
+            2 => vec![1],
+            _ => vec![2, 1, SCRIPT_INTERRUPT, 3],
+        };
+        match catch(|| encode_limited(&enc, rec, script, Some(1 << 20))) {
             Ok((w, res)) => {
                 let bytes = w.bytes();
                 let out = match String::from_utf8(bytes) {
@@ -208,7 +214,7 @@ pub struct Broken {
     pub rec: Rec,
 }
 
-pub const BREAKERS: [&str; 50] = [
+pub const BREAKERS: [&str; 54] = [
     "{m:99999999999999999999.3}", "{m:_<18446744073709551616.3}", "{m:3.99999999999999999999}", "{l:>99999999999999999999.99999999999999999999}", "{(x):18446744073709551616}", "{m:0.18446744073709551616}",
     "}", ")", "(", "\\x", "\\", "{nope}", "{zz9}", "{m(x)}", "{l()}", "{h}", "{D}", "{R}", "{}", "{(a)(b)}", "{d(%Y)(mars)}", "{d(%Y)()}",
     "{d(%Y)(utc)(x)}", "{X}", "{X()}", "{X(a)(b)(c)}", "{X({m})}", "{m:5", "{m:>", "{(abc", "{m:5.x}", "{m:x5}", "{m 5}", "{h(a)(b)}",
@@ -219,6 +225,8 @@ pub const BREAKERS: [&str; 50] = [
     "{d({m}):.0}", "{d(%Y {l}):.3}", "{d(%Y{nope})(utc):>2.4}",
     // characters that are numeric for Unicode but no digits of the grammar, in width positions
     "{m:\u{663}}", "{m:>\u{b2}}", "{m:.\u{2460}}", "{m:1\u{96b}}", "{l:\u{ff13}.\u{ff15}}", "{m:<\u{2167}}",
+    // unknown formatter names longer than any plausible echo limit, multi-byte characters at every offset
+    "{語語語語語語語語語語語語語語語語語語語語語語}", "{a語語語語語語語語語語語語語語語語語語語語語語語語語語語語語語語語語語語語語語語語語語語}", "{abééééééééééééééééééééééééééééééééééééééééééééééééééééééééééééééééééééééé}", "{😀x😀😀😀😀😀😀😀😀😀😀😀😀😀😀😀😀😀😀😀😀😀😀😀😀😀😀😀😀😀😀😀😀😀}",
 ];
 
 pub fn broken_strategy() -> impl Strategy<Value = Broken> {
@@ -466,7 +474,7 @@ pub fn replay(part: &str, case: serde_json::Value) -> Option<CaseResult> {
 pub fn meta() -> EvidenceMeta {
     EvidenceMeta {
         level: "exploration",
-        rule: "three sources, each under both build profiles (overflow checks on/off): (1) exhaustive: every string over the 14 syntax symbols up to the length bound; (2) broken: generated valid pattern AST (rendered by the reference) + one of 50 breaker tokens (lone special, unknown formatter, wrong arity, bad zone, unterminated formatter, malformed spec) + generated suffix: output must start with the reference rendering of the prefix and show {ERROR: after it, or encode must return Err; (3) soup: arbitrary Unicode strings, token soup incl. 20-digit widths and strftime fragments, and 1-3 character edits of valid patterns. Oracle everywhere: catch_unwind around PatternEncoder::new and encode never unwinds; output valid UTF-8. Encoding is skipped when an explicit digit run exceeds 4096 (sanity bound of the statement). non-trivial = output holds both an error marker and other text, or a digit run >= 10 digits, or a % inside a date argument; distinct = FNV hash".into(),
+        rule: "three sources, each under both build profiles (overflow checks on/off): (1) exhaustive: every string over the 14 syntax symbols up to the length bound; (2) broken: generated valid pattern AST (rendered by the reference) + one of 54 breaker tokens (lone special, unknown formatter, wrong arity, bad zone, unterminated formatter, malformed spec) + generated suffix: output must start with the reference rendering of the prefix and show {ERROR: after it, or encode must return Err; (3) soup: arbitrary Unicode strings, token soup incl. 20-digit widths and strftime fragments, and 1-3 character edits of valid patterns. Oracle everywhere: catch_unwind around PatternEncoder::new and encode never unwinds; output valid UTF-8. Encoding is skipped when an explicit digit run exceeds 4096 (sanity bound of the statement). non-trivial = output holds both an error marker and other text, or a digit run >= 10 digits, or a % inside a date argument; distinct = FNV hash".into(),
         assumptions: vec!["panics are observed through catch_unwind (aborts would kill the worker: exit 2)".into()],
         mutants_caught: vec![],
     }
